@@ -313,12 +313,12 @@ def count_class(shape):
     return "counts-equal" if len(set(shape)) == 1 else "counts-unequal"
 
 
-P_RARE = 1e-3
+P_RARE = 2e-2   # below this, normalising the post state amplifies rounding noise by >= 50
 
 
 def config_class(cx, r):
     """configuration class of a node for its sig: system, outcome-count pattern, and whether the reference has a rare
-    (but far above eps_zero) outcome, 1e-7 < p < 1e-3, where normalising the post state amplifies rounding"""
+    (but far above eps_zero) outcome, 1e-7 < p < 2e-2, where normalising the post state amplifies rounding"""
     cls = "%s:%s" % (cx.tag, count_class(r.shape))
     if r.kind == "ens":
         ps = np.array([np.vdot(cx.vecI, b).real for b in r.v])
